@@ -219,7 +219,7 @@ def compare_fields(lib, mA, mB, IA, IB, t, names, skip, what, tol_derived=TOL_DE
         fail('%s: %s of %s %r: %s vs %s' % (what, f, t, names[k], va[k].tolist(), vb[k].tolist()), 'field:' + f)
 
 
-def compare_models(lib, mA, mB, kinds, what):
+def compare_models(lib, mA, mB, kinds, what, prefuse=None):
   """Name-matched comparison of two compiled models.  Returns (IA, IB, common names per type)."""
   fuse, disc = 'fuse' in kinds, 'discard' in kinds
   IA, IB = Index(lib, mA), Index(lib, mB)
@@ -258,7 +258,17 @@ def compare_models(lib, mA, mB, kinds, what):
   # objects whose body is fused away: cameras are excluded (known finding 'fusestatic-camera-frame-lost', see the
   # dedicated probe), geoms and sites are compared without their local-frame fields (world poses: trajectories)
   moved = {t: set() for t in OBJTYPES}
-  tol_derived = TOL_DERIVED_FUSE if fuse else TOL_DERIVED
+  # 'eig jitter': the compiler's Jacobi diagonalisation is discontinuous in its input (termination thresholds, see
+  # TOL_EIG); when two spellings end up with principal frames that differ by more than rounding, everything derived
+  # from the inertia inherits that error and is compared with the fusestatic tolerances instead
+  jitter = 0.0
+  if not fuse:
+    for x in common['body']:
+      Ta, Tb = inertia_body(mA, IA.ids['body'][x]), inertia_body(mB, IB.ids['body'][x])
+      if np.any(Ta):
+        jitter = max(jitter, float(np.max(np.abs(Ta - Tb)) / np.max(np.abs(Ta))))
+  common['eigjitter'] = jitter > 1e-11
+  tol_derived = TOL_DERIVED_FUSE if fuse or common['eigjitter'] else TOL_DERIVED
   if fuse:
     for t, bf in (('geom', 'geom_bodyid'), ('site', 'site_bodyid'), ('camera', 'cam_bodyid')):
       for x in common[t]:
@@ -267,17 +277,27 @@ def compare_models(lib, mA, mB, kinds, what):
     if moved['camera']:
       common['camera'] = [x for x in common['camera'] if x not in moved['camera']]
       common['excluded_cameras'] = sorted(moved['camera'])
-  stale = stale_candidates(lib, mA, IA, mB, IB) if fuse else []
+  # reference ids BEFORE fusing = ids of the same rewritten document compiled with fusestatic off (`prefuse`)
+  stale = stale_candidates(lib, prefuse, Index(lib, prefuse), mB, IB) if fuse and prefuse is not None else []
   if stale:
     # known finding 'fusestatic-stale-geom-site-ids' (dedicated probe): FuseStatic re-orders geoms/sites but the
     # name->id maps used to resolve references afterwards are not rebuilt; everything that goes through such a
     # reference (tendons, actuators, sensors, dynamics) is excluded from this case and counted
     common['stale_refs'] = stale
+  # massless bodies: the compiler copies the body's LOCAL pos/quat into ipos/iquat ("ipos undefined: copy body frame
+  # into inertial"), a value without physical meaning that depends on how the pose is split between <frame>s and the
+  # body; quantities evaluated at that point (body_invweight0, camera offsets to a massless subtree com) are not compared
+  nomass = set(x for x in common['body'] if mA.body_mass[IA.ids['body'][x]] == 0 and
+               not np.any(mA.body_inertia[IA.ids['body'][x]]))
+  nosub = set(x for x in common['camera'] if mA.body_subtreemass[mA.cam_bodyid[IA.ids['camera'][x]]] == 0)
   for t in OBJTYPES:
     if stale and t in ('tendon', 'actuator', 'sensor'):
       continue
-    for subset, sk in (([x for x in common[t] if x not in moved[t]], skip),
-                       ([x for x in common[t] if x in moved[t]], skip | FUSE_MOVED_SKIP)):
+    special = nomass if t == 'body' else nosub if t == 'camera' else set()
+    extra = {'body_invweight0'} if t == 'body' else {'cam_poscom0'}
+    for subset, sk in (([x for x in common[t] if x not in moved[t] and x not in special], skip),
+                       ([x for x in common[t] if x not in moved[t] and x in special], skip | extra),
+                       ([x for x in common[t] if x in moved[t]], skip | FUSE_MOVED_SKIP | extra)):
       compare_fields(lib, mA, mB, IA, IB, t, subset, sk, what, tol_derived)
   # geom / site sizes: only the entries that are meaningful for the type
   for t, tf, sf in (('geom', 'geom_type', 'geom_size'), ('site', 'site_type', 'site_size')):
@@ -313,7 +333,7 @@ def compare_models(lib, mA, mB, kinds, what):
       va, vb = getattr(mA, f)[da:da + nv], getattr(mB, f)[db:db + nv]
       cls, tol = ('derived', tol_derived) if f in DERIVED else ('direct', TOL_DIRECT)
       e = relerr(va, vb)
-      STATS.note(cls + ('-fuse' if fuse and cls == 'derived' else ''), f, e)
+      STATS.note(cls + ('-fuse' if tol_derived != TOL_DERIVED and cls == 'derived' else ''), f, e)
       if e > tol:
         fail('%s: %s of joint %r: %s vs %s (err %.3g)' % (what, f, x, va.tolist(), vb.tolist(), e), 'field:' + f)
   # tendon paths, actuator targets, sensor objects (through names)
@@ -368,7 +388,7 @@ def compare_models(lib, mA, mB, kinds, what):
   for k in stat:
     va, vb = np.atleast_1d(getattr(mA.stat, k)), np.atleast_1d(getattr(mB.stat, k))
     e = relerr(va, vb)
-    STATS.note('derived' + ('-fuse' if fuse else ''), 'stat.' + k, e)
+    STATS.note('derived' + ('-fuse' if tol_derived != TOL_DERIVED else ''), 'stat.' + k, e)
     if e > tol_derived:
       fail('%s: stat.%s %s vs %s' % (what, k, va.tolist(), vb.tolist()), 'field:stat')
   return IA, IB, common
@@ -680,7 +700,8 @@ def check_fuse_probe(ck, lib, case):
       return
     raise
   what = 'fuse-probe'
-  IA, IB, common = compare_models(lib, mA, mB, ['fuse'], what)
+  pre = compile_case(lib, case['rw'].replace('fusestatic="true"', 'fusestatic="false"'), None)
+  IA, IB, common = compare_models(lib, mA, mB, ['fuse'], what, prefuse=pre)
   nf, hetero = fused_mass_check(lib, mA, mB, IA, IB, what)
   labels = ['probe:fuse', 'probe:fused=%d' % min(nf, 3)]
   # (a) cameras of fused bodies: world pose at qpos0
@@ -1011,7 +1032,10 @@ def check_rewrite(ck, lib, case, probe=False):
                    fingerprint='replicate-euler-not-cumulative')
     ck.case(nontrivial=True, key=(case['plain'], case['rw']), labels=['probe:replicate-noncumulative'])
     return
-  IA, IB, common = compare_models(lib, mA, mB, kinds, what)
+  pre = None
+  if 'fuse' in kinds:
+    pre = compile_case(lib, case['rw'].replace('fusestatic="true"', 'fusestatic="false"'), case['child'])
+  IA, IB, common = compare_models(lib, mA, mB, kinds, what, prefuse=pre)
   labels = ['kind:' + k for k in kinds] + ['nkinds=%d' % len(kinds)] + ['rw:' + s for s in case['stats']]
   traj = True
   if 'fuse' in kinds:
@@ -1027,7 +1051,10 @@ def check_rewrite(ck, lib, case, probe=False):
       traj = False
   if 'discard' in kinds:
     labels.append('discard:geoms-removed' if mB.ngeom < mA.ngeom else 'discard:nothing-to-discard')
-  if traj and compare_trajectories(ck, lib, mA, mB, IA, IB, common, case['seed'], what, fuse='fuse' in kinds):
+  if common.get('eigjitter'):
+    labels.append('eig-jitter(loose-derived-tolerance)')
+  if traj and compare_trajectories(ck, lib, mA, mB, IA, IB, common, case['seed'], what,
+                                   fuse='fuse' in kinds or common.get('eigjitter')):
     labels.append('traj:compared')
   nt = case['rw'] != case['plain']
   sample = None
